@@ -9,7 +9,7 @@
 From Coq Require Import List Arith ZArith Bool.
 From MomoCommon Require GenPrelude.
 From C05 Require Import ArrayShift.
-From C05 Require ShiftProofs GrowProofs Gen_Grow.
+From C05 Require ShiftProofs GrowProofs Gen_Grow ArrayModel ArrayProofs.
 Import ListNotations.
 
 (* ArrayShifter::InsertNogrow(array, index, count, const Item& item): for EVERY length, index, count (including 0),
@@ -79,3 +79,66 @@ Theorem C05_grow_capacity_ge :
     exists r, Gen_Grow.GrowCapacity growOnReserve capacity minNew cause linear = GenPrelude.Ok r /\ (minNew <= r < 2 ^ 64)%Z.
 Proof. exact GrowProofs.grow_capacity_ge. Qed.
 Print Assumptions C05_grow_capacity_ge.
+
+(* Array::Insert(index, count, item) (Array.h): `item` may refer to ANY element of the array (or be a temporary), the
+   capacity may or may not suffice: the aliasing test pvIndexOf + the ArrayItemHandler temporary made BEFORE growth
+   make the result exactly the list insertion; it allocates iff the free capacity r is smaller than count. *)
+Theorem C05_array_insert_refines :
+  forall (V : Type) (self_move after_move : V -> option V) (growOnReserve : bool)
+         (l : list V) (r al index count : nat) (x : arg V) (d : V),
+    index <= length l -> ArrayProofs.arg_in V (length l) x -> ArrayProofs.fits (length l + count) ->
+    exists r', ArrayModel.array_insert V self_move after_move growOnReserve (ArrayModel.mkArray V (arr_of l r) al) index count x =
+        Ok (ArrayModel.mkArray V (arr_of (firstn index l ++ repeat (ShiftProofs.arg_val V l d x) count ++ skipn index l) r')
+                    (if r <? count then S al else al)) /\
+      (count <= r -> r' = r - count) /\ length l + r <= length l + count + r'.
+Proof. exact ArrayProofs.array_insert_refines. Qed.
+Print Assumptions C05_array_insert_refines.
+
+(* Array::AddBack(const Item&) with item aliasing any element, through all pvAddBackGrow code paths *)
+Theorem C05_array_add_back_refines :
+  forall (V : Type) (growOnReserve nothrowReloc : bool) (l : list V) (r al : nat) (x : arg V) (d : V),
+    ArrayProofs.arg_in V (length l) x -> ArrayProofs.fits (length l + 1) ->
+    exists r', ArrayModel.array_add_back V growOnReserve nothrowReloc (ArrayModel.mkArray V (arr_of l r) al) x =
+        Ok (ArrayModel.mkArray V (arr_of (l ++ [ShiftProofs.arg_val V l d x]) r') (if r =? 0 then S al else al)) /\
+      (0 < r -> r' = r - 1) /\ length l + r <= length l + 1 + r'.
+Proof. exact ArrayProofs.array_add_back_refines. Qed.
+Print Assumptions C05_array_add_back_refines.
+
+(* every history of AddBack / Insert(n copies) / Insert(range) / Remove / Reserve -- value arguments aliasing any element,
+   empty ranges anywhere -- whose list-level preconditions hold (`bounded`: also all lengths <= B < 2^64) runs without
+   any error in the model and ends in exactly the list-level result; the capacity never decreases; if B is within the
+   initial capacity nothing is allocated *)
+Theorem C05_history_refines :
+  forall (V : Type) (self_move after_move : V -> option V) (ic : nat) (growOnReserve nothrowMove nothrowReloc canRealloc : bool)
+         (os : list (ArrayModel.op V)) (l : list V) (r al : nat) (d : V) (B : nat),
+    ArrayProofs.bounded V l d os B -> ArrayProofs.fits B ->
+    exists l' r' al', ArrayProofs.spec_ops V l d os = Some l' /\
+      ArrayProofs.run_ops V self_move after_move ic growOnReserve nothrowMove nothrowReloc canRealloc
+        (ArrayModel.mkArray V (arr_of l r) al) os = Ok (ArrayModel.mkArray V (arr_of l' r') al') /\
+      length l + r <= length l' + r' /\
+      (B <= length l + r -> al' = al /\ length l' + r' = length l + r).
+Proof. exact ArrayProofs.history_refines. Qed.
+Print Assumptions C05_history_refines.
+
+(* after Reserve(n), growing the size up to n (by any such history) performs no allocation *)
+Theorem C05_reserve_then_grow_no_alloc :
+  forall (V : Type) (self_move after_move : V -> option V) (ic : nat) (growOnReserve nothrowMove nothrowReloc canRealloc : bool)
+         (l : list V) (r al n : nat) (d : V) (os : list (ArrayModel.op V)),
+    ArrayProofs.fits n -> length l <= n -> ArrayProofs.bounded V l d os n ->
+    exists r1 al1 l' r',
+      ArrayModel.array_reserve V growOnReserve (ArrayModel.mkArray V (arr_of l r) al) n = Ok (ArrayModel.mkArray V (arr_of l r1) al1) /\
+      n <= length l + r1 /\
+      ArrayProofs.spec_ops V l d os = Some l' /\
+      ArrayProofs.run_ops V self_move after_move ic growOnReserve nothrowMove nothrowReloc canRealloc
+        (ArrayModel.mkArray V (arr_of l r1) al1) os = Ok (ArrayModel.mkArray V (arr_of l' r') al1) /\
+      length l' + r' = length l + r1.
+Proof. exact ArrayProofs.reserve_then_grow_no_alloc. Qed.
+Print Assumptions C05_reserve_then_grow_no_alloc.
+
+Theorem C05_history_nonvacuous :
+  ArrayProofs.bounded nat [1;2;3] 0 [ArrayModel.OAddBack nat (ArgRef 0); ArrayModel.OInsert nat 1 2 (ArgRef 3); ArrayModel.ORemove nat 0 0;
+       ArrayModel.OInsert nat 2 0 (ArgRef 1); ArrayModel.OReserve nat 9; ArrayModel.OInsertRange nat 6 [7;8]; ArrayModel.ORemove nat 1 3] 10
+  /\ ArrayProofs.spec_ops nat [1;2;3] 0 [ArrayModel.OAddBack nat (ArgRef 0); ArrayModel.OInsert nat 1 2 (ArgRef 3); ArrayModel.ORemove nat 0 0;
+       ArrayModel.OInsert nat 2 0 (ArgRef 1); ArrayModel.OReserve nat 9; ArrayModel.OInsertRange nat 6 [7;8]; ArrayModel.ORemove nat 1 3] = Some [1;3;1;7;8].
+Proof. exact ArrayProofs.bounded_example. Qed.
+Print Assumptions C05_history_nonvacuous.
